@@ -156,7 +156,7 @@ pub fn run_q(trace: &Trace, obs: &mut dyn Observer) -> Result<(RunStats, Screen)
             set_current_op("");
             let r;
             if need {
-                let post = Snapshot::take(&screen);
+                let post = Snapshot::take_from(&screen, Some(&cur));
                 r = obs.step(&StepCtx {
                     idx,
                     actor: $actor,
